@@ -338,6 +338,10 @@ class Analyzer:
         if p is None:
             return []
         pk = p['k']
+        # re-seating or advancing a local POINTER / iterator (`l = base + k; ++l; l += n`) changes the cursor, not the data it walks over
+        if top is n and n['k'] == 'ref' and f.decl(n['d']).get('k') == 'local' and (f.decl(n['d']).get('ptr') or self.is_handle(f, n['d'])) \
+                and ((pk == 'un' and p['op'] in ('++', '--')) or (pk == 'bin' and p['op'] in ('=', '+=', '-=') and _is(p['x'], top))):
+            return []
         if pk == 'bin' and p['op'] == '=' and _is(p['x'], top):
             if elem and self._lit_index:
                 # a[<literal>] = ..: one fixed element; neither a read nor an initialisation of the array
